@@ -219,6 +219,16 @@ func init() {
 		}
 		session := r.sessionHeightFor(a["session"], curBuildHeight)
 		proofs := synthEvidence(app, node, chain, session, n)
+		switch a["dup"] { // evidence with duplicated relays (a servicer replaying one relay to inflate its count)
+		case "all":
+			for i := range proofs {
+				proofs[i] = proofs[0]
+			}
+		case "pairs":
+			for i := range proofs {
+				proofs[i] = proofs[i/2*2]
+			}
+		}
 		hdr := pc.SessionHeader{ApplicationPubKey: rawPub(app), Chain: chain, SessionBlockHeight: session}
 		root, sorted := pc.GenerateRoot(session, proofs)
 		switch t.Kind {
@@ -241,6 +251,9 @@ func init() {
 			switch a["variant"] {
 			case "wrong-index":
 				idx = (idx + 1) % int64(n)
+			}
+			if a["index"] != "" { // explicit leaf index (probing which index the chain accepts, if any)
+				idx, _ = strconv.ParseInt(a["index"], 10, 64)
 			}
 			mp, leaf := pc.GenerateProofs(session, sorted, int(idx))
 			if os.Getenv("VERIF_DEBUG") != "" {
